@@ -72,14 +72,16 @@ func (w *ConfWatcher) run() {
 	var lastCalled time.Time
 	previousWatchedPath, _ := filepath.EvalSymlinks(w.absolutePath)
 
+	// a change that happens less than minInterval after a notification
+	// is notified when the interval is over
+	delayed := time.NewTimer(minInterval)
+	delayed.Stop()
+	defer delayed.Stop()
+
 outer:
 	for {
 		select {
 		case event := <-w.inner.Events:
-			if time.Since(lastCalled) < minInterval {
-				continue
-			}
-
 			currentWatchedPath, _ := filepath.EvalSymlinks(w.absolutePath)
 			eventPath, _ := filepath.Abs(event.Name)
 			eventPath, _ = filepath.EvalSymlinks(eventPath)
@@ -87,26 +89,40 @@ outer:
 			if currentWatchedPath == "" {
 				// watched file was removed; wait for write event to trigger reload
 				previousWatchedPath = ""
+				delayed.Stop()
+				continue
 			} else if currentWatchedPath != previousWatchedPath ||
 				(eventPath == currentWatchedPath &&
 					((event.Op&fsnotify.Write) == fsnotify.Write ||
 						(event.Op&fsnotify.Create) == fsnotify.Create)) {
-				// wait some additional time to allow the writer to complete its job
-				time.Sleep(additionalWait)
 				previousWatchedPath = currentWatchedPath
 
-				lastCalled = time.Now()
-
-				select {
-				case w.signal <- struct{}{}:
-				case <-w.terminate:
-					break outer
+				if wait := minInterval - time.Since(lastCalled); wait > 0 {
+					delayed.Reset(wait)
+					continue
 				}
+
+				delayed.Stop()
+			} else {
+				continue
 			}
+
+		case <-delayed.C:
 
 		case <-w.inner.Errors:
 			break outer
 
+		case <-w.terminate:
+			break outer
+		}
+
+		// wait some additional time to allow the writer to complete its job
+		time.Sleep(additionalWait)
+
+		lastCalled = time.Now()
+
+		select {
+		case w.signal <- struct{}{}:
 		case <-w.terminate:
 			break outer
 		}
